@@ -36,7 +36,8 @@ EXPLANATION = (
     "constructor keywords, `self.f = f` - so a hop joining two different declared options is reported; R9.6 also requires the "
     "store on every path that returns a freshly built observation; R9.8 inside a loop of observe() a local assigned under a "
     "condition is re-initialised in the body before it is read (no value carried over from another iteration); R9.9 = C14's "
-    "R14.1 (only scans write the visible health fields) applied here. NOT decided: numerical equality of every leaf with the simulator's attribute at every step (needs "
+    "R14.1 (only scans write the visible health fields) applied here; R9.10 no describe_state implementation stores on self or "
+    "mutates one of its attributes (the state handed to observe is computed afresh). NOT decided: numerical equality of every leaf with the simulator's attribute at every step (needs "
     "execution), whether describe_state is called after all of the step's effects, and the contents of untyped "
     "dictionaries (NetworkInterface.traffic / nmne) below their top-level key."
 )
@@ -824,6 +825,28 @@ def r9_8(ctx: Ctx, om: ObsModel) -> None:
 
 
 
+def r9_10(ctx: Ctx, om: ObsModel) -> None:
+    """The observation is computed from describe_state(): that function must report the *current* objects.  An implementation that
+    stores on self (a memo of a sub-state, a cached dictionary) reports what was true when the memo was taken."""
+    ix = ctx.ix
+    ctx.rule("R9.10", "every describe_state implementation computes its answer afresh: no store to an attribute of self, no mutator "
+                      "call on one")
+    n = 0
+    for f in ix.functions:
+        if f.name != "describe_state" or isinstance(f.node, ast.Lambda) or not f.path.startswith("src/primaite/simulator/"):
+            continue
+        n += 1
+        bad = [f"line {x.lineno}: {unparse(x)[:60]}" for x in ast.walk(f.node) if isinstance(x, (ast.Assign, ast.AugAssign)) and any(
+            "self." in unparse(t) and not isinstance(t, ast.Name) for t in (x.targets if isinstance(x, ast.Assign) else [x.target]))]
+        bad += [f"line {c.lineno}: {unparse(c)[:60]}" for c in ast.walk(f.node) if isinstance(c, ast.Call) and isinstance(c.func, ast.Attribute)
+                and c.func.attr in ("setdefault", "update", "append", "pop", "add", "clear", "remove") and unparse(c.func.value).startswith("self.")]
+        ctx.record("R9.10", ctx.key(f, "describe_state stores nothing on the object"), f.loc(), not bad,
+                   "pure read of the component" if not bad else
+                   "describe_state keeps part of its answer on the object: later observations show the remembered part, not the current state", bad[:4])
+    ctx.floor("R9.10", "describe_state implementations", n, 40)
+
+
+
 def check(ctx: Ctx) -> None:
     om = ObsModel(ctx.ix)
     ctx.count("E6:describe_state implementations", len(om.schema.impls()))
@@ -835,6 +858,7 @@ def check(ctx: Ctx) -> None:
     r9_6(ctx, om)
     r9_7(ctx, om)
     r9_8(ctx, om)
+    r9_10(ctx, om)
     # 'the last-scanned (visible) value' is only that if nothing but a scan writes it: C14's who-may-write rule applies here too
     from . import c14
     with ctx.borrowed({"R14.1": "R9.9"}):
